@@ -210,3 +210,8 @@ def _flagged(fn, bb):
         if t["k"] == "switch" and t["d"]["k"] in ("copy", "move") and fn.locals[t["d"]["p"]["l"]]["ty"] == "bool" and not fn.locals[t["d"]["p"]["l"]].get("name"):
             return True
     return False
+
+
+def run_thorough(ctx):
+    deep_census(ctx, "R08.2", ["pipe", "pipe2", "socketpair"], {"pipe": ["posix::pipe"]})
+    deep_census(ctx, "R08.1", ["fcntl"], {"fcntl": ["posix::fcntl", "std::os::fd::BorrowedFd::<'_>::try_clone_to_owned", "std::sys::fs::unix::debug_assert_fd_is_open", "std::sys::fs::unix::debug_path_fd::get_mode"]})
